@@ -15,7 +15,7 @@ PROFILES = [('c11', 40000)]
 
 
 def batches(tier):
-    k = 1 if tier == 'quick' else 15
+    k = 1 if tier == 'quick' else 60
     return [{'name': n, 'n': c * k, 'profile': n} for n, c in PROFILES]
 
 
